@@ -428,6 +428,22 @@ def rule_INIT(ctx, rid='L0'):
         ctx.ob(rid, 'Union.compute:init(%s)' % m, ok, f.where(),
                'member %r is initialised on every path' % m if ok else
                'member %r is not initialised by compute()' % m)
+    # the second constructor: a union that comes back from a checkpoint is a union like any
+    # other -- split() and trim() read every member of the record
+    if 'read' in ctx.program.cls('Union').methods:
+        f = ctx.program.func('Union.read')
+        obj = _ctor_obj(f)
+        asg = attrs_assigned(f, obj)
+        cfg = cfg_of(f)
+        rets = [x.id for x in cfg.nodes if x.kind == 'stmt' and isinstance(x.ast, ast.Return)]
+        for m in G_UNION.members + ['log_v_all']:
+            ok = m in asg and all(cfg.must_pass(cfg.entry.id, r, asg[m]) for r in rets)
+            ctx.ob(rid, 'Union.read:init(%s)' % m, ok, f.where(),
+                   'member %r is rebuilt on every path of read()' % m if ok else
+                   'read() returns a union without member %r: the next split() raises '
+                   'AttributeError, and a trim() that drops an ellipsoid raises after it has '
+                   'removed the bound, its points and its volume but before the proposal cache '
+                   'is reset' % m)
 
 
 def run(ctx):
